@@ -267,6 +267,17 @@ def main(cli_argv=None, return_args=False):
                 "--truth must be an existent file. Got: {!r}".format(truth_file)
             )
 
+        for key, val in vars(args).items():
+            if key.endswith("_names") and (
+                (val is None)
+                != (getattr(args, pluralise(key[: -len("_names")])) is None)
+            ):
+                _parser.error(
+                    "--{name} and --{name}-name must be given together".format(
+                        name=key[: -len("_names")].replace("_", "-")
+                    )
+                )
+
         return args if return_args else ground_truth(args, truth_file)
     elif command == "sync_properties":
         for fname in "input_filename", "output_filename":
